@@ -1,4 +1,366 @@
 import Model.Time
+import Mathlib.Tactic
+/-!
+Helper lemmas about the calendar model `Model/Time.lean`:
+specification of the bounded searches, `truncTo` (= `set_time_resolution`) is monotone,
+idempotent and `≤ id`, keeps the year, and the calendar fields of a time rebuild its
+truncation (`mkDate_fields_day`, `mkDate_fields_hour`).
+-/
 namespace TM
-theorem truncTo_hour_le (t : Nat) : truncTo .hour t ≤ t := by show t - t % usPerHour ≤ t; omega
+
+/-! ### bounded search -/
+
+theorem findGreatest_le (P : Nat → Bool) (n : Nat) : findGreatest P n ≤ n := by
+  induction n with
+  | zero => simp [findGreatest]
+  | succ n ih => unfold findGreatest; split <;> omega
+
+theorem le_findGreatest (P : Nat → Bool) {n k : Nat} (hk : k ≤ n) (hP : P k = true) :
+    k ≤ findGreatest P n := by
+  induction n with
+  | zero => omega
+  | succ n ih =>
+    unfold findGreatest
+    split
+    · exact hk
+    · rename_i hn
+      rcases Nat.lt_or_ge k (n + 1) with h | h
+      · exact ih (by omega)
+      · have : k = n + 1 := by omega
+        subst this; exact absurd hP hn
+
+theorem findGreatest_spec (P : Nat → Bool) {n k : Nat} (hk : k ≤ n) (hP : P k = true) :
+    P (findGreatest P n) = true := by
+  induction n with
+  | zero =>
+    have : k = 0 := by omega
+    subst this; simpa [findGreatest] using hP
+  | succ n ih =>
+    unfold findGreatest
+    split
+    · assumption
+    · rename_i hn
+      rcases Nat.lt_or_ge k (n + 1) with h | h
+      · exact ih (by omega)
+      · have : k = n + 1 := by omega
+        subst this; exact absurd hP hn
+
+/-! ### years -/
+
+theorem isLeap_iff (y : Nat) : isLeap y = true ↔ (y % 4 = 0 ∧ (y % 100 ≠ 0 ∨ y % 400 = 0)) := by
+  simp [isLeap]
+
+theorem dby_succ (y : Nat) (hy : 1 ≤ y) : dby (y + 1) = dby y + yearLen y := by
+  obtain ⟨k, rfl⟩ : ∃ k, y = k + 1 := ⟨y - 1, by omega⟩
+  simp only [dby, Nat.add_sub_cancel, yearLen, isLeap]
+  by_cases h4 : (k + 1) % 4 = 0 <;> by_cases h100 : (k + 1) % 100 = 0 <;>
+    by_cases h400 : (k + 1) % 400 = 0 <;> simp [h4, h100, h400] <;> omega
+
+theorem yearLen_ge (y : Nat) : 365 ≤ yearLen y := by unfold yearLen; split <;> omega
+theorem yearLen_le (y : Nat) : yearLen y ≤ 366 := by unfold yearLen; split <;> omega
+
+theorem dby_lt_succ (y : Nat) (hy : 1 ≤ y) : dby y < dby (y + 1) := by
+  rw [dby_succ y hy]; have := yearLen_ge y; omega
+
+theorem dby_mono {y z : Nat} (hy : 1 ≤ y) (h : y ≤ z) : dby y ≤ dby z := by
+  induction z with
+  | zero => omega
+  | succ z ih =>
+    rcases Nat.lt_or_ge y (z + 1) with h1 | h1
+    · have := ih (by omega)
+      have := dby_lt_succ z (by omega)
+      omega
+    · have : y = z + 1 := by omega
+      subst this; exact le_refl _
+
+theorem dby_strict {y z : Nat} (hy : 1 ≤ y) (h : y < z) : dby y < dby z := by
+  have h1 := dby_lt_succ y hy
+  have h2 := dby_mono (y := y + 1) (z := z) (by omega) (by omega)
+  omega
+
+theorem dby_ge (y : Nat) : 365 * (y - 1) ≤ dby y := by unfold dby; omega
+
+theorem yearOfDay_spec (d : Nat) :
+    1 ≤ yearOfDay d ∧ dby (yearOfDay d) ≤ d ∧ d < dby (yearOfDay d + 1) := by
+  have hP1 : (fun y => decide (dby y ≤ d)) 1 = true := by simp [dby]
+  have h1 : 1 ≤ yearOfDay d := le_findGreatest _ (by omega) hP1
+  have h2 : decide (dby (yearOfDay d) ≤ d) = true :=
+    findGreatest_spec (fun y => decide (dby y ≤ d)) (k := 1) (by omega) hP1
+  refine ⟨h1, by simpa using h2, ?_⟩
+  by_contra hc
+  have hc : dby (yearOfDay d + 1) ≤ d := by omega
+  rcases Nat.lt_or_ge (yearOfDay d + 1) (d / 365 + 1 + 1) with hb | hb
+  · have := le_findGreatest (fun y => decide (dby y ≤ d)) (n := d / 365 + 1) (k := yearOfDay d + 1)
+      (by omega) (by simpa using hc)
+    unfold yearOfDay at this; unfold yearOfDay at h1; omega
+  · have := dby_ge (yearOfDay d + 1)
+    omega
+
+theorem yearOfDay_unique {d y : Nat} (hy : 1 ≤ y) (h1 : dby y ≤ d) (h2 : d < dby (y + 1)) :
+    yearOfDay d = y := by
+  obtain ⟨g0, g1, g2⟩ := yearOfDay_spec d
+  rcases Nat.lt_trichotomy (yearOfDay d) y with h | h | h
+  · have := dby_mono (y := yearOfDay d + 1) (z := y) (by omega) (by omega); omega
+  · exact h
+  · have := dby_mono (y := y + 1) (z := yearOfDay d) (by omega) (by omega); omega
+
+theorem yearOfDay_mono {a b : Nat} (h : a ≤ b) : yearOfDay a ≤ yearOfDay b := by
+  obtain ⟨a0, a1, _⟩ := yearOfDay_spec a
+  obtain ⟨_, _, b2⟩ := yearOfDay_spec b
+  by_contra hc
+  have := dby_mono (y := yearOfDay b + 1) (z := yearOfDay a) (by omega) (by omega)
+  omega
+
+theorem doy0_lt (d : Nat) : doy0OfDay d < yearLen (yearOfDay d) := by
+  obtain ⟨h0, h1, h2⟩ := yearOfDay_spec d
+  rw [dby_succ _ h0] at h2
+  unfold doy0OfDay; omega
+
+/-! ### months -/
+
+theorem dbm_succ (l : Bool) (m : Nat) (h1 : 1 ≤ m) (h2 : m ≤ 12) :
+    dbm l (m + 1) = dbm l m + monthLen l m := by
+  interval_cases m <;> cases l <;> rfl
+
+theorem dbm_13 (y : Nat) : dbm (isLeap y) 13 = yearLen y := by
+  unfold yearLen; cases isLeap y <;> rfl
+
+theorem dbm_mono_fin : ∀ l : Bool, ∀ a b : Fin 14, 1 ≤ a.val → a.val ≤ b.val → dbm l a.val ≤ dbm l b.val := by
+  decide
+
+theorem dbm_mono (l : Bool) {a b : Nat} (ha : 1 ≤ a) (hab : a ≤ b) (hb : b ≤ 13) : dbm l a ≤ dbm l b :=
+  dbm_mono_fin l ⟨a, by omega⟩ ⟨b, by omega⟩ ha hab
+
+theorem monthLen_pos (l : Bool) (m : Nat) (h1 : 1 ≤ m) (h2 : m ≤ 12) : 1 ≤ monthLen l m := by
+  interval_cases m <;> cases l <;> decide
+
+theorem monthLen_le (l : Bool) (m : Nat) : monthLen l m ≤ 31 := by
+  unfold monthLen; split <;> (try split) <;> omega
+
+/-- specification of the month search for any `x < length of the year` -/
+theorem month_search_spec (l : Bool) (x : Nat) (hx : x < dbm l 13) :
+    let m := findGreatest (fun m => decide (dbm l m ≤ x)) 12
+    1 ≤ m ∧ m ≤ 12 ∧ dbm l m ≤ x ∧ x < dbm l (m + 1) := by
+  intro m
+  have hP1 : (fun m => decide (dbm l m ≤ x)) 1 = true := by simp [dbm]
+  have h1 : 1 ≤ m := le_findGreatest _ (by omega) hP1
+  have h2 : m ≤ 12 := findGreatest_le _ _
+  have h3 : decide (dbm l m ≤ x) = true :=
+    findGreatest_spec (fun m => decide (dbm l m ≤ x)) (k := 1) (by omega) hP1
+  refine ⟨h1, h2, by simpa using h3, ?_⟩
+  by_contra hc
+  have hc : dbm l (m + 1) ≤ x := by omega
+  rcases Nat.lt_or_ge m 12 with hb | hb
+  · have := le_findGreatest (fun m => decide (dbm l m ≤ x)) (n := 12) (k := m + 1) (by omega)
+      (by simpa using hc)
+    omega
+  · have : m = 12 := by omega
+    rw [this] at hc
+    have h13 : dbm l (12 + 1) = dbm l 13 := rfl
+    omega
+
+theorem month_search_unique (l : Bool) (x m : Nat) (h1 : 1 ≤ m) (h2 : m ≤ 12)
+    (h3 : dbm l m ≤ x) (h4 : x < dbm l (m + 1)) :
+    findGreatest (fun m => decide (dbm l m ≤ x)) 12 = m := by
+  have hx : x < dbm l 13 := lt_of_lt_of_le h4 (dbm_mono l (by omega) (by omega) (le_refl _))
+  obtain ⟨g1, g2, g3, g4⟩ := month_search_spec l x hx
+  generalize findGreatest (fun m => decide (dbm l m ≤ x)) 12 = k at *
+  rcases Nat.lt_trichotomy k m with h | h | h
+  · have := dbm_mono l (a := k + 1) (b := m) (by omega) (by omega) (by omega); omega
+  · exact h
+  · have := dbm_mono l (a := m + 1) (b := k) (by omega) (by omega) (by omega); omega
+
+theorem monthOfDay_spec (d : Nat) :
+    1 ≤ monthOfDay d ∧ monthOfDay d ≤ 12 ∧
+    dbm (isLeap (yearOfDay d)) (monthOfDay d) ≤ doy0OfDay d ∧
+    doy0OfDay d < dbm (isLeap (yearOfDay d)) (monthOfDay d + 1) := by
+  have hx : doy0OfDay d < dbm (isLeap (yearOfDay d)) 13 := by rw [dbm_13]; exact doy0_lt d
+  exact month_search_spec _ _ hx
+
+theorem monthOfDay_eq {d m : Nat} (h1 : 1 ≤ m) (h2 : m ≤ 12)
+    (h3 : dbm (isLeap (yearOfDay d)) m ≤ doy0OfDay d)
+    (h4 : doy0OfDay d < dbm (isLeap (yearOfDay d)) (m + 1)) : monthOfDay d = m := by
+  unfold monthOfDay; exact month_search_unique _ _ _ h1 h2 h3 h4
+
+theorem monthStartDay_le (d : Nat) : monthStartDay d ≤ d := by
+  obtain ⟨_, h1, _⟩ := yearOfDay_spec d
+  obtain ⟨_, _, h3, _⟩ := monthOfDay_spec d
+  unfold monthStartDay; unfold doy0OfDay at h3; omega
+
+/-- the day number `dby y + x` with `x` inside year `y` has year `y`, day-of-year `x` -/
+theorem yearOfDay_add {y x : Nat} (hy : 1 ≤ y) (hx : x < yearLen y) : yearOfDay (dby y + x) = y :=
+  yearOfDay_unique hy (by omega) (by rw [dby_succ y hy]; omega)
+
+theorem monthStartDay_fields (d : Nat) :
+    yearOfDay (monthStartDay d) = yearOfDay d ∧ monthOfDay (monthStartDay d) = monthOfDay d := by
+  obtain ⟨hy, _, _⟩ := yearOfDay_spec d
+  obtain ⟨m1, m2, m3, m4⟩ := monthOfDay_spec d
+  have hlt : dbm (isLeap (yearOfDay d)) (monthOfDay d) < yearLen (yearOfDay d) := by
+    have := doy0_lt d; omega
+  have e1 : yearOfDay (monthStartDay d) = yearOfDay d := by
+    unfold monthStartDay; exact yearOfDay_add hy hlt
+  refine ⟨e1, ?_⟩
+  have e2 : doy0OfDay (monthStartDay d) = dbm (isLeap (yearOfDay d)) (monthOfDay d) := by
+    unfold doy0OfDay; rw [e1]; unfold monthStartDay; omega
+  have hpos := monthLen_pos (isLeap (yearOfDay d)) (monthOfDay d) m1 m2
+  apply monthOfDay_eq m1 m2
+  · rw [e1, e2]
+  · rw [e1, e2, dbm_succ _ _ m1 m2]; omega
+
+theorem monthStartDay_idem (d : Nat) : monthStartDay (monthStartDay d) = monthStartDay d := by
+  obtain ⟨e1, e2⟩ := monthStartDay_fields d
+  show dby (yearOfDay (monthStartDay d)) + dbm (isLeap (yearOfDay (monthStartDay d)))
+      (monthOfDay (monthStartDay d)) = monthStartDay d
+  rw [e1, e2]; rfl
+
+theorem monthStartDay_mono {a b : Nat} (h : a ≤ b) : monthStartDay a ≤ monthStartDay b := by
+  have hy := yearOfDay_mono h
+  obtain ⟨a0, a1, a2⟩ := yearOfDay_spec a
+  obtain ⟨b0, b1, b2⟩ := yearOfDay_spec b
+  obtain ⟨am1, am2, am3, am4⟩ := monthOfDay_spec a
+  obtain ⟨bm1, bm2, bm3, bm4⟩ := monthOfDay_spec b
+  rcases Nat.lt_or_ge (yearOfDay a) (yearOfDay b) with hlt | hge
+  · have h1 := monthStartDay_le a
+    have h2 := dby_mono (y := yearOfDay a + 1) (z := yearOfDay b) (by omega) (by omega)
+    unfold monthStartDay at *; omega
+  · have he : yearOfDay a = yearOfDay b := by omega
+    unfold monthStartDay
+    unfold doy0OfDay at am3 am4 bm3 bm4
+    rw [he] at am3 am4 ⊢
+    have hm : monthOfDay a ≤ monthOfDay b := by
+      by_contra hc
+      have := dbm_mono (isLeap (yearOfDay b)) (a := monthOfDay b + 1) (b := monthOfDay a)
+        (by omega) (by omega) (by omega)
+      omega
+    have := dbm_mono (isLeap (yearOfDay b)) am1 hm (by omega)
+    omega
+
+/-! ### times -/
+
+theorem dayNum_mono {a b : Nat} (h : a ≤ b) : dayNum a ≤ dayNum b := Nat.div_le_div_right h
+
+theorem yearOf_mono {a b : Nat} (h : a ≤ b) : yearOf a ≤ yearOf b := yearOfDay_mono (dayNum_mono h)
+
+theorem dayNum_mul (d : Nat) : dayNum (d * usPerDay) = d := by
+  unfold dayNum usPerDay; omega
+
+theorem truncTo_le (r : Res) (t : Nat) : truncTo r t ≤ t := by
+  cases r
+  · show dby (yearOf t) * usPerDay ≤ t
+    obtain ⟨_, h, _⟩ := yearOfDay_spec (dayNum t)
+    have : dby (yearOf t) * usPerDay ≤ dayNum t * usPerDay := Nat.mul_le_mul_right _ h
+    have h2 : dayNum t * usPerDay ≤ t := Nat.div_mul_le_self t usPerDay
+    omega
+  · show monthStartDay (dayNum t) * usPerDay ≤ t
+    have : monthStartDay (dayNum t) * usPerDay ≤ dayNum t * usPerDay :=
+      Nat.mul_le_mul_right _ (monthStartDay_le _)
+    have h2 : dayNum t * usPerDay ≤ t := Nat.div_mul_le_self t usPerDay
+    omega
+  · show t - t % usPerDay ≤ t; omega
+  · show t - t % usPerHour ≤ t; omega
+
+theorem truncTo_mono (r : Res) {a b : Nat} (h : a ≤ b) : truncTo r a ≤ truncTo r b := by
+  cases r
+  · show dby (yearOf a) * usPerDay ≤ dby (yearOf b) * usPerDay
+    exact Nat.mul_le_mul_right _ (dby_mono (yearOfDay_spec _).1 (yearOf_mono h))
+  · show monthStartDay (dayNum a) * usPerDay ≤ monthStartDay (dayNum b) * usPerDay
+    exact Nat.mul_le_mul_right _ (monthStartDay_mono (dayNum_mono h))
+  · show a - a % usPerDay ≤ b - b % usPerDay
+    unfold usPerDay; omega
+  · show a - a % usPerHour ≤ b - b % usPerHour
+    unfold usPerHour; omega
+
+theorem yearOf_dby_mul (y : Nat) (hy : 1 ≤ y) : yearOf (dby y * usPerDay) = y := by
+  unfold yearOf; rw [dayNum_mul]
+  exact yearOfDay_unique hy (le_refl _) (dby_lt_succ y hy)
+
+theorem truncTo_idem (r : Res) (t : Nat) : truncTo r (truncTo r t) = truncTo r t := by
+  cases r
+  · show dby (yearOf (dby (yearOf t) * usPerDay)) * usPerDay = dby (yearOf t) * usPerDay
+    have := yearOf_dby_mul (yearOf t) (yearOfDay_spec (dayNum t)).1
+    rw [this]
+  · show monthStartDay (dayNum (monthStartDay (dayNum t) * usPerDay)) * usPerDay = _
+    rw [dayNum_mul, monthStartDay_idem]; rfl
+  · show (t - t % usPerDay) - (t - t % usPerDay) % usPerDay = t - t % usPerDay
+    unfold usPerDay; omega
+  · show (t - t % usPerHour) - (t - t % usPerHour) % usPerHour = t - t % usPerHour
+    unfold usPerHour; omega
+
+theorem yearOf_truncTo (r : Res) (t : Nat) : yearOf (truncTo r t) = yearOf t := by
+  cases r
+  · exact yearOf_dby_mul _ (yearOfDay_spec _).1
+  · show yearOfDay (dayNum (monthStartDay (dayNum t) * usPerDay)) = _
+    rw [dayNum_mul]; exact (monthStartDay_fields _).1
+  · show yearOfDay (dayNum (t - t % usPerDay)) = yearOfDay (dayNum t)
+    have : dayNum (t - t % usPerDay) = dayNum t := by unfold dayNum usPerDay; omega
+    rw [this]
+  · show yearOfDay (dayNum (t - t % usPerHour)) = yearOfDay (dayNum t)
+    have : dayNum (t - t % usPerHour) = dayNum t := by unfold dayNum usPerDay usPerHour; omega
+    rw [this]
+
+/-! ### the calendar fields of a time rebuild its truncation -/
+
+theorem yearOf_le_9999 {t : Nat} (h : t ≤ maxT) : yearOf t ≤ 9999 := by
+  obtain ⟨h0, h1, _⟩ := yearOfDay_spec (dayNum t)
+  by_contra hc
+  have h2 := dby_mono (y := 10000) (z := yearOf t) (by omega) (by omega)
+  have e : dby 10000 = 3652059 := by decide
+  have h3 : dayNum t < dby 10000 := by
+    rw [e]; unfold dayNum; unfold maxT at h; rw [e] at h; unfold usPerDay at *; omega
+  unfold yearOf at h2 hc; omega
+
+theorem fields_valid (d : Nat) :
+    1 ≤ monthOfDay d ∧ monthOfDay d ≤ 12 ∧ 1 ≤ domOfDay d ∧
+    domOfDay d ≤ monthLen (isLeap (yearOfDay d)) (monthOfDay d) ∧
+    dby (yearOfDay d) + dbm (isLeap (yearOfDay d)) (monthOfDay d) + (domOfDay d - 1) = d := by
+  obtain ⟨_, y1, _⟩ := yearOfDay_spec d
+  obtain ⟨m1, m2, m3, m4⟩ := monthOfDay_spec d
+  rw [dbm_succ _ _ m1 m2] at m4
+  unfold domOfDay
+  unfold doy0OfDay at *
+  refine ⟨m1, m2, by omega, by omega, by omega⟩
+
+theorem mkDate_fields_day {t : Nat} (h : t ≤ maxT) :
+    mkDate (yearOf t) (monthOf t) (domOf t) none = some (truncTo .day t) := by
+  obtain ⟨v1, v2, v3, v4, v5⟩ := fields_valid (dayNum t)
+  have hy := yearOf_le_9999 h
+  have hy1 := (yearOfDay_spec (dayNum t)).1
+  unfold mkDate
+  simp only []
+  rw [if_pos (by unfold yearOf monthOf domOf at *; exact ⟨hy1, hy, v1, v2, v3, v4, by omega⟩)]
+  unfold yearOf monthOf domOf
+  rw [v5]
+  show some (dayNum t * usPerDay + 0 * usPerHour) = some (t - t % usPerDay)
+  unfold dayNum usPerDay; congr 1; omega
+
+theorem mkDate_fields_hour {t : Nat} (h : t ≤ maxT) :
+    mkDate (yearOf t) (monthOf t) (domOf t) (some (hourOf t)) = some (truncTo .hour t) := by
+  obtain ⟨v1, v2, v3, v4, v5⟩ := fields_valid (dayNum t)
+  have hy := yearOf_le_9999 h
+  have hy1 := (yearOfDay_spec (dayNum t)).1
+  have hh : hourOf t < 24 := by unfold hourOf usPerDay usPerHour; omega
+  unfold mkDate
+  simp only []
+  rw [if_pos (by unfold yearOf monthOf domOf at *; exact ⟨hy1, hy, v1, v2, v3, v4, hh⟩)]
+  unfold yearOf monthOf domOf
+  rw [v5]
+  show some (dayNum t * usPerDay + hourOf t * usPerHour) = some (t - t % usPerHour)
+  unfold dayNum hourOf usPerDay usPerHour; congr 1; omega
+
+/-- `{doy}` of a time converts back to its month and day -/
+theorem doy_fields (t : Nat) :
+    monthOfDay (dby (yearOf t) + (doyOf t - 1)) = monthOf t ∧
+    domOfDay (dby (yearOf t) + (doyOf t - 1)) = domOf t := by
+  obtain ⟨_, y1, _⟩ := yearOfDay_spec (dayNum t)
+  have : dby (yearOf t) + (doyOf t - 1) = dayNum t := by
+    unfold doyOf doy0OfDay yearOf; omega
+  rw [this]; exact ⟨rfl, rfl⟩
+
+/-- every month is at most `Res.month.micros`, every year at most `Res.year.micros` long -/
+theorem period_le_res :
+    (∀ l m, monthLen l m * usPerDay ≤ Res.month.micros) ∧ (∀ y, yearLen y * usPerDay ≤ Res.year.micros) := by
+  refine ⟨fun l m => ?_, fun y => ?_⟩
+  · exact Nat.mul_le_mul_right _ (monthLen_le l m)
+  · exact Nat.mul_le_mul_right _ (yearLen_le y)
+
 end TM
